@@ -217,10 +217,22 @@ func (c *compiler) evalFunctionLiteral(node *ast.FunctionLiteral) (interface{}, 
 	return &userFunction{Parameters: params, Block: block}, nil
 }
 
+// tolerableUnknown reports whether err is the unknown-identifier error of the
+// identifier node itself. Only that fault may be treated as nil by conditions
+// and by !, ==, !=, && and ||; the same error coming out of a nested
+// expression (nope + 1, f(nope), nope()) is a real failure.
+func tolerableUnknown(node ast.Expression, err error) bool {
+	if _, ok := node.(*ast.Identifier); !ok {
+		return false
+	}
+	_, ok := err.(*ErrUnknownIdentifier)
+	return ok
+}
+
 func (c *compiler) evalPrefixExpression(node *ast.PrefixExpression) (interface{}, error) {
 	res, err := c.evalExpression(node.Right)
 	if err != nil {
-		if _, ok := err.(*ErrUnknownIdentifier); !ok {
+		if !tolerableUnknown(node.Right, err) {
 			return nil, err
 		}
 	}
@@ -236,7 +248,7 @@ func (c *compiler) evalPrefixExpression(node *ast.PrefixExpression) (interface{}
 func (c *compiler) evalIfExpression(node *ast.IfExpression) (interface{}, error) {
 	con, err := c.evalExpression(node.Condition)
 	if err != nil {
-		if _, ok := err.(*ErrUnknownIdentifier); !ok {
+		if !tolerableUnknown(node.Condition, err) {
 			return nil, err
 		}
 	}
@@ -253,7 +265,7 @@ func (c *compiler) evalElseAndElseIfExpressions(node *ast.IfExpression) (interfa
 	for _, eiNode := range node.ElseIf {
 		eiCon, err := c.evalExpression(eiNode.Condition)
 		if err != nil {
-			if _, ok := err.(*ErrUnknownIdentifier); !ok {
+			if !tolerableUnknown(eiNode.Condition, err) {
 				return nil, err
 			}
 		}
@@ -513,7 +525,7 @@ func (c *compiler) evalIdentifier(node *ast.Identifier) (interface{}, error) {
 
 func (c *compiler) evalInfixExpression(node *ast.InfixExpression) (interface{}, error) {
 	lres, err := c.evalExpression(node.Left)
-	if _, unknown := err.(*ErrUnknownIdentifier); err != nil && !unknown {
+	if err != nil && !tolerableUnknown(node.Left, err) {
 		return nil, err // only an unknown identifier may be tolerated below
 	}
 	if err != nil &&
@@ -530,7 +542,7 @@ func (c *compiler) evalInfixExpression(node *ast.InfixExpression) (interface{}, 
 	}
 
 	rres, err := c.evalExpression(node.Right)
-	if _, unknown := err.(*ErrUnknownIdentifier); err != nil && !unknown {
+	if err != nil && !tolerableUnknown(node.Right, err) {
 		return nil, err // only an unknown identifier may be tolerated below
 	}
 	if err != nil &&
